@@ -143,6 +143,11 @@ def generate(ctx, rng):
             segs.append(sorted(rng.sample(range(1, n), min(k, n - 1))) if n > 1 else [])
         yield ("timed", j), {"kind": "timed", "streams": picks, "cuts": segs, "tseed": rng.getrandbits(32),
                              "read_timeout": rng.choice([0.5, 2, 2, 5])}
+    # full-stack, a packet that straddles two exchanges: its head arrives with the reply to one request, its tail only after the
+    # next request has been sent
+    for j in range(80 if quick else 3000):
+        yield ("straddle", j), {"kind": "straddle", "frames": [rng.randbytes(rng.choice([1, 5, 14, 20, 33])) for _ in range(3)],
+                                "cut": rng.choice([1, 2, 5, 6, 7, 8, 40, 100, -1, -32]), "cseed": rng.getrandbits(32)}
     # full-stack
     nfs = 260 if quick else 6000
     for j in range(nfs):
@@ -217,6 +222,8 @@ def run_case(ctx, case):
         return _fullstack(ctx, case)
     if kind == "timed":
         return _timed(ctx, case)
+    if kind == "straddle":
+        return _straddle(ctx, case)
     if kind == "chain":
         proto = _LanProtocolV3()
         proto._local_key = KEY
@@ -339,6 +346,55 @@ def _timed(ctx, case):
             return
 
 
+def _straddle(ctx, case):
+    frames = [bytes(f) for f in case["frames"]]
+    tok, key = bytes(range(64)), bytes(range(100, 132))
+    net = H.new_net()
+    dev = SimDevice(net, version=3, token=tok, key=key, device_id=78)
+    dev.fifo = True
+    n = {"x": 0}
+
+    def on_exchange(conn, req, packets, meta):
+        n["x"] += 1
+        if "pk" not in n:
+            n["pk"] = [dev.wrap(conn, f) for f in frames]      # built once: head and tail must belong to the same packet
+        pk = n["pk"]
+        cut = case["cut"] if case["cut"] > 0 else len(pk[1]) + case["cut"]
+        cut = max(1, min(len(pk[1]) - 1, cut))
+        if n["x"] == 1:
+            return [(0, pk[0] + pk[1][:cut])]
+        if n["x"] == 2:
+            return [(0.05, pk[1][cut:] + pk[2])]
+        return [(0, dev.wrap(conn, b"\xaa\x0b\xac" + bytes(7) + b"\xee"))]
+
+    dev.on_exchange = on_exchange
+
+    async def go(loop):
+        lan = LAN(dev.host, dev.port, 78)
+        await lan.authenticate(tok, key)
+        a = list(await lan.send(b"\xaa\x0b\xac" + bytes(8)))
+        await asyncio.sleep(0.2)
+        b = list(await lan.send(b"\xaa\x0b\xac" + bytes(8)))
+        await asyncio.sleep(0.5)
+        c = list(await lan.send(b"\xaa\x0b\xac" + bytes(7) + b"\x01"))
+        return a, b, c
+
+    key_ = ("straddle", case["cseed"], case["cut"])
+    try:
+        (a, b, c), loop = H.run_virtual(go, net)
+    except Exception as e:  # noqa: BLE001
+        ctx.count(key_, kind="fullstack-raised")
+        ctx.violation("fullstack-raises", f"{type(e).__name__}: {e} for a packet straddling two exchanges", case)
+        return
+    got = [bytes(x) for x in a + b + c]
+    if got[:3] != frames or [bytes(x) for x in a] != frames[:1]:
+        ctx.count(key_, kind="fullstack-mismatch")
+        ctx.violation("fullstack-frames", f"a packet whose head arrived with one reply and whose tail arrived after the next request: "
+                      f"frames returned {[len(g) for g in got]}, sent {[len(f) for f in frames]}", case)
+        return
+    ctx.count(key_, kind="fullstack-ok", sample={"cut": case["cut"]})
+
+
 def _fullstack(ctx, case):
     import random
     frames = [bytes(f) for f in case["frames"]]
@@ -352,6 +408,7 @@ def _fullstack(ctx, case):
         if plan.get("done"):
             return [(0, dev.wrap(conn, b"\xaa\x0b\xac" + bytes(7) + b"\xee"))]
         plan["done"] = True
+        plan["t_req"] = conn.now()
         pk = [dev.wrap(conn, f) for f in frames]
         stream = bytes(case["garbage"]) + b"".join(pk)
         n = len(stream)
@@ -399,9 +456,11 @@ def _fullstack(ctx, case):
         ctx.violation("fullstack-frames", "frames returned by consecutive sends differ from the frames the device sent", case,
                       {"cuts": plan.get("cuts"), "got": allgot, "want": want})
         return
-    if abs((t1 - t0) - plan["t_first"]) > 1e-6:
+    # promptness is measured from the instant the device received the request (when send() itself chooses to write it - e.g.
+    # after a settling pause following the handshake - is not the framer's business)
+    if abs((t1 - plan["t_req"]) - plan["t_first"]) > 1e-6:
         ctx.count(key_, kind="fullstack-late")
-        ctx.violation("fullstack-promptness", f"first send returned after {t1 - t0:.3f}s but the first packet was complete at "
-                      f"{plan['t_first']:.3f}s", case, {"cuts": plan.get("cuts")})
+        ctx.violation("fullstack-promptness", f"first send returned {t1 - plan['t_req']:.3f}s after its request reached the device but the first packet "
+                      f"of the reply was complete after {plan['t_first']:.3f}s", case, {"cuts": plan.get("cuts")})
         return
     ctx.count(key_, kind="fullstack-ok", sample={"frames": [f.hex() for f in frames], "cuts": plan["cuts"][:10], "t_first": plan["t_first"]})
